@@ -6,6 +6,8 @@ import (
 	"go/constant"
 	"go/types"
 	"math/big"
+	"os"
+	"runtime/debug"
 	"strconv"
 	"strings"
 
@@ -34,7 +36,12 @@ type Scope struct {
 
 type evalError struct{ msg string }
 
-func (sc *Scope) fail(f string, a ...any) { panic(evalError{fmt.Sprintf(f, a...)}) }
+func (sc *Scope) fail(f string, a ...any) {
+	if os.Getenv("GOVC_TRACE") != "" {
+		fmt.Fprintf(os.Stderr, "eval failure: %s\n%s\n", fmt.Sprintf(f, a...), debug.Stack())
+	}
+	panic(evalError{fmt.Sprintf(f, a...)})
+}
 
 func (sc *Scope) with(st *State) *Scope {
 	n := *sc
@@ -274,6 +281,10 @@ func (sc *Scope) debugRef(fr *Frame, name string) (Val, bool) {
 			}
 			// only variables declared in this function
 			if obj := d.Object(); obj != nil && obj.Pkg() != nil && obj.Parent() == obj.Pkg().Scope() {
+				continue
+			}
+			// not the field of a selector expression that happens to have this name
+			if fv, ok := d.Object().(*types.Var); ok && fv.IsField() {
 				continue
 			}
 			if d.IsAddr {
@@ -883,7 +894,7 @@ func (sc *Scope) lvalue(e Expr) (string, types.Type) {
 			for _, b := range fr.fn.Blocks {
 				for _, in := range b.Instrs {
 					if d, ok := in.(*ssa.DebugRef); ok && d.IsAddr {
-						if id, ok := d.Expr.(*ast.Ident); ok && id.Name == e.Name {
+						if id, ok := d.Expr.(*ast.Ident); ok && id.Name == e.Name && !isFieldObj(d.Object()) {
 							return sc.valueOf(fr, d.X), d.X.Type().Underlying().(*types.Pointer).Elem()
 						}
 					}
@@ -1100,4 +1111,9 @@ func (sc *Scope) quant(e EQuant) Val {
 		q = "forall"
 	}
 	return boolVal(fmt.Sprintf("(%s (%s) %s)", q, strings.Join(binders, " "), body))
+}
+
+func isFieldObj(o types.Object) bool {
+	v, ok := o.(*types.Var)
+	return ok && v.IsField()
 }
